@@ -144,6 +144,7 @@ func c19OracleDomain(p []rune) []rune {
 			}
 			v = v*8 + int(p[i+k]-'0')
 			add(rune(v & 0xff))
+			add(rune(v)) // RE2 keeps the value above \377
 		}
 		c := p[i]
 		if c >= 'a' && c <= 'z' {
